@@ -90,3 +90,34 @@ pub fn cmd_fireloop(args: &Args) -> i32 {
                           "ms": t0.elapsed().as_millis() as u64}));
     0
 }
+
+// ------------------------------------------------------------------------------------------------
+// C07 (ordering half for the vector-agenda engines): FireOrder.tla cases.
+
+pub struct FO;
+
+impl crate::core::Model for FO {
+    fn apply(&mut self, l: &serde_json::Value) -> serde_json::Value {
+        let prios: Vec<i32> = l["prios"].as_array().unwrap().iter().map(|p| p.as_i64().unwrap() as i32).collect();
+        let fired: Vec<String> = match l["engine"].as_str().unwrap() {
+            "typed" => {
+                let mut e = TypedReteUlEngine::new();
+                for (i, p) in prios.iter().enumerate() {
+                    e.add_rule_with_action(format!("r{}", i + 1), alpha("n", ">=", "0"), *p, true, |_f: &mut TypedFacts, _r| {});
+                }
+                e.set_fact("n", 0i64);
+                e.fire_all()
+            }
+            _ => {
+                let mut e = ReteUlEngine::new();
+                for (i, p) in prios.iter().enumerate() {
+                    e.add_rule_with_action(format!("r{}", i + 1), alpha("n", ">=", "0"), *p, false, |_f: &mut std::collections::HashMap<String, String>| {});
+                }
+                e.set_fact("n".to_string(), "0".to_string());
+                e.fire_all()
+            }
+        };
+        let order: Vec<i64> = fired.iter().map(|s| s.trim_start_matches('r').parse().unwrap_or(-1)).collect();
+        json!({"order": order})
+    }
+}
